@@ -71,7 +71,7 @@ def build(case, rng):
     if case.get("system"):
         return build_system(case, rng, pk, d, D)
     net = nets.Net(fields.TrigField(case["seed"], D, 1), eqt)
-    ncomp = 1 if pk == "nonstatio" else 1 + case["seed"] % 2
+    ncomp = 1 if pk == "nonstatio" else 1 + (case["seed"] // 4) % 2  # (seed % 4 is tied to the generator kind)
     spec = eqs.ResidSpec(case["seed"], ncomp, 1, D)
     het = None
     if case["seed"] % 3 == 0:
